@@ -51,11 +51,23 @@ class Env:
         self.context = None
         self.db = None
         self.parents = {}
+        self.serial = 0
 
     async def open(self):
         from vh.sut import context as sctx
         self.context = sctx.build(db=self.path)
         self.db = self.context.database
+        await self.new_parents()
+        return self
+
+    async def new_test(self):
+        """Called at the start of every replayed history: fresh parent rows now and then, so that the list-valued
+        getters (get_workflow_steps ...) stay small."""
+        self.serial += 1
+        if self.serial % 16 == 0:
+            await self.new_parents()
+
+    async def new_parents(self):
         from streamflow.core.workflow import Port, Token, Workflow
         from streamflow.workflow.step import ScatterStep
         db = self.db
@@ -67,7 +79,6 @@ class Env:
                                                   scheduling_policy={"name": "p", "type": "data_locality", "config": {}},
                                                   workdir=None, wraps=None)
         p["token"] = await db.add_token(tag="0", type=Token, value=None, port=p["port"])
-        return self
 
     async def commit(self):
         async with self.db.connection as conn:
@@ -240,7 +251,7 @@ class WorkflowT(Table):
 
     async def add(self, env, ver):
         from streamflow.core.workflow import Workflow
-        return await env.db.add_workflow(name="w%d" % ver, params=nested_value(ver), status=self.top_value(ver), type=Workflow)
+        return await env.db.add_workflow(name="w%d_%d" % (env.serial, ver), params=nested_value(ver), status=self.top_value(ver), type=Workflow)
 
     async def secondary(self, env, cids):
         out = []
@@ -452,6 +463,7 @@ class Replayer:
         """path: transitions (dicts with act, args, obs, reads, truth).  Returns number of reads compared."""
         tab, env, ctx = self.tab, self.env, self.ctx
         ids, rets, last_write, nreads = [], [], {}, 0
+        await env.new_test()
         hist = history_of(path)
         detail = {"table": tab.name, "history": hist, "label": self.label}
 
@@ -479,7 +491,7 @@ class Replayer:
                             tab.getter, i, hist[:n], got if not isinstance(got, BaseException) else repr(got), truth),
                             step=n, got=repr(got), truth=truth, predicted_by_model=tab.abstract(got) == _obs(tr) if tab.predict else None)
                     elif tab.predict and tab.abstract(got) != _obs(tr):
-                        ctx.count("model_deviation_benign")      # code is right where the as-is model predicts a leak
+                        ctx.count("asis_model_predicts_wrong_read_code_reads_right")   # e.g. a repaired tree
                     rets.append((i, raw))
                     rets[:] = rets[-self.max_rets:]
                 elif act == "mut_top":
@@ -502,12 +514,14 @@ class Replayer:
                 nreads += 1
                 sig = classify(tab, got, truth, last_write.get(i))
                 pred = last["reads"][tab.kind][i - 1]
+                if sig and tab.predict and tab.abstract(got) == pred:
+                    ctx.count("asis_model_predicts_wrong_read_code_follows")
                 if sig:
                     bad(sig, "after %s: %s(%s) returned %r, a fresh connection reads %r" % (hist, tab.getter, i, got, truth),
                         step=len(path), got=repr(got), truth=truth,
                         predicted_by_model=(tab.abstract(got) == pred) if tab.predict else None)
                 elif tab.predict and tab.abstract(got) != pred:
-                    ctx.count("model_deviation_benign")
+                    ctx.count("asis_model_predicts_wrong_read_code_reads_right")
             try:
                 for label, got, truth in await tab.secondary(env, set(ids)):
                     nreads += 1
